@@ -92,13 +92,35 @@ class C17(common.Spec):
             kw['initdef'] = dec(c['initdef'])
         # an application's own subclass of the block is still an Input / InputExp
         cls_in, cls_exp = (SubInput, SubInputExp) if c.get('subclass') else (edzed.Input, edzed.InputExp)
-        if c['kind'] == 'input':
-            if c['restored'] is not None:
+        # 'allowed' is given as a list, as a set or as the key view of a dict; the application goes on
+        # using (and changing) its own container afterwards: the block keeps the values it was given
+        mutable = None
+        if 'allowed' in kw and n % 3:
+            try:
+                if n % 3 == 1:
+                    mutable = set(kw['allowed'])
+                    kw['allowed'] = mutable
+                else:
+                    mutable = dict.fromkeys(kw['allowed'])
+                    kw['allowed'] = mutable.keys()
+            except TypeError:          # an unhashable value
+                mutable = None
+        try:
+            if c['kind'] == 'input':
+                if c['restored'] is not None:
+                    kw['persistent'] = True
+                return cls_in(f"b{n}", **kw)
+            if c.get('restored') is not None:
                 kw['persistent'] = True
-            return cls_in(f"b{n}", **kw)
-        if c.get('restored') is not None:
-            kw['persistent'] = True
-        return cls_exp(f"b{n}", duration=100000, expired=dec(c['expired']), **kw)
+            return cls_exp(f"b{n}", duration=100000, expired=dec(c['expired']), **kw)
+        finally:
+            if mutable is not None:
+                everything = [dec(x) for x in DOM if x[0] != 't']
+                mutable.clear()
+                if isinstance(mutable, set):
+                    mutable.update(everything)
+                else:
+                    mutable.update(dict.fromkeys(everything))
 
     def _batch(self, cases):
         obs = [None] * len(cases)
